@@ -1927,6 +1927,43 @@ theorem bip322_p2pkh_secp256k1_built (flags : Nat) (msg h : Bytes) (ht : Nat)
     (by simp only [List.length_append, List.length_singleton]; omega)
     (by simp only [List.length_append, List.length_singleton]; omega) hne
 
+/-! ### the three wsh(miniscript) templates on what the library builds (`BuiltBySecp`: encoding, size and compressed key proved) -/
+
+theorem closure_wsh_andv_pk_pk_secp256k1_built (flags : Nat) (cx : TxCtx) (h a b sa sb : Bytes) (hl : h.length = 32)
+    (hW : has flags FLAG_WITNESS = true) (hnz : castToBool h = true)
+    (hh : sha256 (andvPkPk a b) = h)
+    (hsa : BuiltBySecp cx (andvPkPk a b) .WITNESS_V0 sa a) (hsb : BuiltBySecp cx (andvPkPk a b) .WITNESS_V0 sb b) :
+    verifyScript (envOf secpCrypto flags cx) [] (p2wsh h) [sb, sa, andvPkPk a b] = .ok () := by
+  obtain ⟨ma, ea, _, la, ka⟩ := builtBySecp_facts flags cx _ _ sa a hsa
+  obtain ⟨mb, eb, _, lb, kb⟩ := builtBySecp_facts flags cx _ _ sb b hsb
+  exact closure_wsh_andv_pk_pk_secp256k1 flags cx h a b sa sb hl hW hnz hh ea eb (by omega) (by omega) ka kb ma mb
+
+/-- both satisfactions of wsh(or_d(pk(A),pkh(B))); `hka` (A's octets compressed) stays for the right branch, where A
+    does not sign -/
+theorem closure_wsh_ord_pk_pkh_secp256k1_built (flags : Nat) (cx : TxCtx) (h a hb : Bytes) (hl : h.length = 32)
+    (hlb : hb.length = 20) (hW : has flags FLAG_WITNESS = true) (hnz : castToBool h = true)
+    (hh : sha256 (ordPkPkh a hb) = h) (hka : isCompressedPubKey a = true) :
+    (∀ sa, BuiltBySecp cx (ordPkPkh a hb) .WITNESS_V0 sa a →
+      verifyScript (envOf secpCrypto flags cx) [] (p2wsh h) [sa, ordPkPkh a hb] = .ok ()) ∧
+    (∀ b sb, ripemd160 (sha256 b) = hb → BuiltBySecp cx (ordPkPkh a hb) .WITNESS_V0 sb b →
+      verifyScript (envOf secpCrypto flags cx) [] (p2wsh h) [sb, b, [], ordPkPkh a hb] = .ok ()) := by
+  obtain ⟨hL, hR⟩ := closure_wsh_ord_pk_pkh_secp256k1 flags cx h a hb hl hlb hW hnz hh hka
+  refine ⟨fun sa hsa => ?_, fun b sb hhb hsb => ?_⟩
+  · obtain ⟨ma, ea, _, la, _⟩ := builtBySecp_facts flags cx _ _ sa a hsa
+    exact hL sa ea (by omega) ma
+  · obtain ⟨mb, eb, _, lb, kb⟩ := builtBySecp_facts flags cx _ _ sb b hsb
+    exact hR b sb hhb kb eb (by omega) mb
+
+theorem closure_wsh_andv_pk_older_secp256k1_built (flags : Nat) (cx : TxCtx) (h a sa : Bytes) (n : Nat)
+    (hn : 1 ≤ n ∧ n ≤ 16) (hl : h.length = 32) (hW : has flags FLAG_WITNESS = true) (hnz : castToBool h = true)
+    (hh : sha256 (andvPkOlder a n) = h)
+    (hsa : BuiltBySecp cx (andvPkOlder a n) .WITNESS_V0 sa a)
+    (hseq : has flags FLAG_CHECKSEQUENCEVERIFY = true →
+      checkSequence (evalCtx (envOf secpCrypto flags cx) .WITNESS_V0 (andvPkOlder a n)) (n : Int) = true) :
+    verifyScript (envOf secpCrypto flags cx) [] (p2wsh h) [sa, andvPkOlder a n] = .ok () := by
+  obtain ⟨ma, ea, _, la, ka⟩ := builtBySecp_facts flags cx _ _ sa a hsa
+  exact closure_wsh_andv_pk_older_secp256k1 flags cx h a sa n hn hl hW hnz hh ea (by omega) ka ma hseq
+
 /-- non-vacuity of the `_built` forms, by the KERNEL: the concrete p2wpkh spend of `Proofs/C10/Example.lean` (its key
     octets ARE `secpCompressedKey (q·G)`: `Ex.hbuilt`) satisfies every hypothesis of `closure_p2wpkh_secp256k1_built`
     under all twenty-one flags -/
